@@ -155,24 +155,53 @@ Theorem SelectionSort_perm_sorted eqf grp l p cnt : equivalence eqf ->
   0 <= p -> 0 < cnt -> p + cnt <= alen l ->
   exists l', pvSelectionSort swap grp l p cnt = Ok l' /\ relR p (p + cnt) l l' /\
     sortedR l' p (p + cnt) /\ groupedR eqf l' p (p + cnt).
-Proof. intros (R & S & T) Hg Hp Hc Hl. apply (pvSelectionSort_spec swap swap_is_swap eqf); assumption. Qed.
+Proof.
+  intros (R & S & T) Hg Hp Hc Hl.
+  destruct (pvSelectionSort_spec swap swap_is_swap eqf grp True p cnt Hp) with (l := l) as (l' & E & Rl & Sd & G); auto.
+  - intros l0 q c A B C. destruct (Hg l0 q c A B C) as (l1 & E1 & R1 & C1). exists l1. auto.
+  - exists l'. auto.
+Qed.
 
 Theorem RadixSort_perm_partial eqf R g W l l' :
   RadixSortG swap eqf R g W l = Ok l' -> Permutation l l' /\ alen l' = alen l.
 Proof. apply (RadixSortG_perm_partial swap swap_is_swap eqf). Qed.
 
-Theorem HashSort_small_output_satisfies_is_sorted eqf l : equivalence eqf -> alen l <= 32 ->
+From C17 Require Import Radix_Proofs.
+
+Definition codes_below (W : Z) (l : arr) : Prop := Forall (fun e => 0 <= fst e < 2 ^ W) l.
+Lemma codes_below_nth W l : codes_below W l -> forall k, 0 <= k < alen l -> 0 <= code l k < 2 ^ W.
+Proof.
+  intros H k Hk. unfold code, get. unfold codes_below in H. rewrite Forall_forall in H. apply H. apply nth_In. unfold alen in Hk. lia.
+Qed.
+
+(* RadixSorter<R>::Sort: every radix size, every code width, with / without HashSorter's group callback *)
+Theorem RadixSort_perm_sorted eqf R g W l : equivalence eqf -> 1 <= R -> 0 <= W -> codes_below W l ->
+  exists l', RadixSortG swap eqf R g W l = Ok l' /\ Permutation l l' /\ alen l' = alen l /\
+    sortedR l' 0 (alen l') /\ (g = true -> groupedR eqf l' 0 (alen l')).
+Proof.
+  intros (Rf & S & T) HR HW Hc.
+  apply (RadixSortG_total swap swap_is_swap eqf Rf S T R g W l HR HW). apply codes_below_nth. exact Hc.
+Qed.
+
+(* HashSorter::Sort / SortPrehashed at EVERY size *)
+Theorem HashSort_output_satisfies_is_sorted eqf l : equivalence eqf -> codes_below 64 l ->
   exists l', HashSort eqf l = Ok l' /\ Permutation l l' /\
     IsSorted (alen l') (code l') (itm l') eqf = Ok true.
 Proof.
-  intros He Hn. pose proof He as (R & S & T).
-  destruct (HashSort_small_spec swap swap_is_swap eqf R S T l Hn) as (l' & E & P & L & Sd & G).
+  intros He Hc. destruct (RadixSort_perm_sorted eqf 8 true 64 l He ltac:(lia) ltac:(lia) Hc) as (l' & E & P & L & Sd & G).
   exists l'. split; [exact E|]. split; [exact P|].
   destruct (IsSorted_iff (alen l') (code l') (itm l') eqf ltac:(unfold alen; lia) He) as (b & Eb & Hb).
   rewrite Eb. f_equal. apply Hb. split.
   - intros i j Hi Hij Hj. apply Sd; lia.
-  - intros a m c Ha Ham Hmc Hc Hh Eac. apply (G a m c); auto.
+  - intros a m c Ha Ham Hmc Hcc Hh Eac. apply (G eq_refl a m c); auto.
 Qed.
 
 Example ex_hashsort : HashSort Z.eqb [(7, 4); (3, 1); (3, 2); (3, 1); (0, 9)] = Ok [(0, 9); (3, 1); (3, 1); (3, 2); (7, 4)].
+Proof. vm_compute. reflexivity. Qed.
+
+(* non-vacuity of the radix path incl. the final PARTIAL digit: R = 3 on 8-bit codes uses the shifts 5, 2, 0 (selection-sort
+   threshold 4, so 7 items take the radix path); with grouping *)
+Example ex_radix_partial_digit :
+  RadixSortG swap Z.eqb 3 true 8 [(201, 1); (7, 2); (201, 3); (64, 4); (201, 1); (6, 5); (255, 6)]
+  = Ok [(6, 5); (7, 2); (64, 4); (201, 1); (201, 1); (201, 3); (255, 6)].
 Proof. vm_compute. reflexivity. Qed.
